@@ -77,13 +77,13 @@ def _hist_tag(line, out):
     """distribution of the generated histories, printed into the evidence: which system calls carry a fault, whether the
     line is a kill, and what the model says happened to the destination"""
     f = line.split()
-    if len(f) < 6 or f[0] not in ("hist", "hkill"):
+    if len(f) < 6 or f[0] not in ("hist", "hkill", "histk", "hkillk"):
         return None
     faults = "+".join(sorted(x.split(":")[0] for x in f[5].split(","))) if f[5] != "-" else "nofault"
     ops = f[4].split(".")
     shape = "".join(o[0] for o in ops)
     first_end = next((c for c in shape if c in "CX"), "-")
-    return "%s:%s:first=%s:%s" % (f[0], faults, first_end, "F" if "F" in shape else "noF")
+    return "%s:%s:%s:first=%s:%s" % (f[0], f[1].split(":")[0], faults, first_end, "F" if "F" in shape else "noF")
 
 
 def run(ctx):
@@ -98,6 +98,9 @@ def run(ctx):
         "close(2) of the embedded Close) are proved to refine an abstract specification without temporary file (Safe.Abs) and are "
         "compared with strace runs (area hist); writeFileMulti = WriteFileWithMode with a primary fault plus a failing deferred "
         "close(2) and/or unlink (area multi)",
+        "node kinds: Model/SafeFileKinds.lean is a file system of regular files, directories and symbolic links with the rules "
+        "of rename / O_EXCL / unlink about them and os.Rename's own refusal of a directory destination (no rename(2) issued) inside "
+        "the model; the File API runs against it (File.stepsK); compared with strace runs on every destination kind (histk lines)",
         "bufio.Writer is transcribed with its sticky error (Safe.BW.write/flush test err first; Lemmas writeFile_closed "
         "proves it equal to the closed form chunk rule Safe.bufWrite + stop at the failing write, for every callback "
         "behaviour); the buffer size is measured from the code's behaviour "
@@ -112,7 +115,7 @@ def run(ctx):
         "model — a collision of a candidate name with an ABSENT destination of the form safe<digits> (probability 2^-63 "
         "per attempt) is the one case excluded by hypothesis in full_dest_old_or_new and shown by an example",
     ]
-    ctx.lean(props=["Props.C14", "Props.C14Hist", "Props.C14Race", "Props.C14RaceHist"], drivers=["drv_c14"])
+    ctx.lean(props=["Props.C14", "Props.C14Hist", "Props.C14Race", "Props.C14RaceHist", "Props.C14Kinds"], drivers=["drv_c14"])
     if not ctx.harness("./cmd/c14"):
         return
     _calibrate(ctx)
@@ -162,13 +165,18 @@ def run(ctx):
                  what="child process under strace: seq = system calls touching the destination directory (temporary "
                       "name abstracted), fault = strace inject error, kill = SIGKILL on entry to the j-th call of a kind")
         thm2 = ("C14.history_refines_spec / history_every_kill_point / full_api_history are about Safe.File.stepsU and "
-                "Safe.apiRunFull, C14.multi_fault_* about Safe.writeFileMulti; implementation != model on this input")
+                "Safe.apiRunFull (lines hist/hkill), C14.kinds_history_refines_spec / kinds_history_every_kill_point / "
+                "directory_destination_stays / link_destination_target_untouched about Safe.File.stepsK on the file system with "
+                "node kinds (lines histk/hkillk), C14.multi_fault_* about Safe.writeFileMulti; implementation != model on this input")
         ctx.diff(area="hist", driver="drv_c14", n={"quick": 200, "thorough": 6000}, shards=shards, theorem=thm2, timeout=1500,
                  tagger=_hist_tag,
                  what="child process under strace: an arbitrary history of the safe.File API (Write / Commit / Close / "
                       "embedded Close in any order, after Create or CreateWithMode) with a fault injected on ANY of its "
                       "system calls (one per name: the j-th write, close, rename, unlink, or the open) and SIGKILL on entry "
-                      "to any call; output = system calls, result of every call, destination, temporary file, reader")
+                      "to any call; output = system calls, result of every call, destination, temporary file, reader; "
+                      "destination kinds: absent, regular file, DIRECTORY, symbolic link (small and large target), dangling link, "
+                      "MISSING PARENT directory; the k-lines are judged by the model with node kinds and the kernel's / os.Rename's "
+                      "rules inside (Model/SafeFileKinds.lean), which also reports the state of the link's target")
         ctx.diff(area="multi", driver="drv_c14", n={"quick": 1, "thorough": 1}, shards=shards, theorem=thm2, timeout=1500,
                  what="child process under strace, two or three faults in one WriteFileWithMode: {callback error, panic, "
                       "write, close, rename} x {close(2) of the deferred Close, unlink of the cleanup, both}; expected "
